@@ -527,6 +527,16 @@ func (c08) Exec(sci interface{}, env *Env) *Violation {
 			}
 			env.Steps += uint64(steps)
 			budget = tw.Bus.Tick + 64
+			// half of the scenarios: the usual host pattern, a context per call that is released after the call
+			release := func() {}
+			runCtx := func() context.Context {
+				if sc.IOSeed&2 == 0 {
+					return context.Background()
+				}
+				ctx, cancel := context.WithCancel(context.Background())
+				release = cancel
+				return ctx
+			}
 			memBefore := rn.Bus.Mem
 			var gotErr error
 			var over *overrun
@@ -538,7 +548,7 @@ func (c08) Exec(sci interface{}, env *Env) *Violation {
 				}
 				ch := make(chan res, 1)
 				go func() {
-					e, o := safeRun(rn.CPU, context.Background())
+					e, o := safeRun(rn.CPU, runCtx())
 					ch <- res{e, o}
 				}()
 				select {
@@ -548,9 +558,15 @@ func (c08) Exec(sci interface{}, env *Env) *Violation {
 					return viol("run-overrun", "%s: Run on the library's DumbMemory did not return within 30 s of real time; repeated Step stops after %d Steps with %s", what, steps, errName(wantErr))
 				}
 			} else {
-				gotErr, over = safeRun(rn.CPU, context.Background())
+				gotErr, over = safeRun(rn.CPU, runCtx())
 			}
+			release()
 			budget = 0
+			if gotErr != nil && errors.Is(gotErr, context.Canceled) {
+				// (the only contexts around are the host's own per-call ones, each cancelled AFTER its Run had
+				// returned; which Run a late watcher hits is the Go scheduler's choice: labelled accordingly)
+				return viol("error-value-free-running", "%s: Run returned %v although its own context was live until after it had returned (the host cancels each call's context right after the call); repeated Step gives %s after %d Steps", what, gotErr, errName(wantErr), steps)
+			}
 			if over != nil {
 				return viol("run-overrun", "%s: Run was still executing at tick %d; repeated Step stops at tick %d after %d Steps with %s (started at tick %d, PC=%04x)", what, over.tick, tw.Bus.Tick, steps, errName(wantErr), t0, before.PC)
 			}
